@@ -181,7 +181,12 @@ func lexExh(args []string) {
 	rec = func(prefix string, n int) {
 		blk := count / 4096
 		if verbose < 0 || blk == verbose {
-			line := lexLine(prefix, np, proj)
+			var line string
+			if strings.HasPrefix(proj, "fn:") {
+				line = lexLiners[proj[3:]](prefix)
+			} else {
+				line = lexLine(prefix, np, proj)
+			}
 			if oracle != nil {
 				if why := oracle(prefix); why != "" {
 					fmt.Fprintf(out, "FAIL %s %s\n", hx(prefix), why)
